@@ -190,7 +190,7 @@ func (g *Gen) value(c ColSpec) Val {
 		return Val{B: g.numBits(k)}
 	case k == KBool:
 		return Val{B: 1}
-	case k == KString || k == KStringCat:
+	case k.PlainString():
 		if g.pool == "small" || g.pool == "agg" {
 			return Val{S: g.sortAlph[g.rng.Intn(len(g.sortAlph))]}
 		}
@@ -225,6 +225,11 @@ func (g *Gen) mergeDelta(c ColSpec, curLen int) Val {
 			return Val{S: g.sortAlph[g.rng.Intn(len(g.sortAlph))]}
 		}
 		return Val{S: g.randBytes(g.rng.Intn(12))}
+	case KStringMin:
+		if g.pool == "small" || g.pool == "agg" {
+			return Val{S: g.sortAlph[g.rng.Intn(len(g.sortAlph))]}
+		}
+		return Val{S: g.randBytes(1 + g.rng.Intn(10))} // longer or shorter than the current value
 	}
 	return g.value(c)
 }
@@ -245,6 +250,7 @@ type txnGenOpts struct {
 	WriteCols    []ColSpec // columns the generator may write (nil = all of the model)
 	InsertAllPct int       // percent of inserts that set every column (so that reuse exposes stale data)
 	MultiBlock   bool
+	SwallowPct   int // percent of aborting transactions in which one insert callback fails and the body ignores it
 }
 
 func (g *Gen) pickCols(m *Model, o txnGenOpts, n int) []ColSpec {
@@ -282,6 +288,8 @@ type txnState struct {
 	keysMade  map[string]bool  // keys created / re-keyed to in this transaction
 	keysGone  map[string]bool  // keys deleted in this transaction
 	curLen    map[cellKey]int
+	cur       map[cellKey]Val // simulated value of the cells written so far
+	curHas    map[cellKey]bool
 }
 
 func (g *Gen) genWrites(m *Model, o txnGenOpts, ts *txnState, rowID int64, isNew bool, n int, noMerge bool) []Write {
@@ -298,21 +306,23 @@ func (g *Gen) genWrites(m *Model, o txnGenOpts, ts *txnState, rowID int64, isNew
 				w.Via = 1
 			}
 			merge := !noMerge && c.Kind.Mergeable() && g.rng.Intn(100) < o.MergePct && c.Name != "expire"
+			// current value of the cell as this transaction has left it so far
+			cv, has := ts.cur[ck], ts.curHas[ck]
+			if _, seen := ts.curHas[ck]; !seen && !isNew && rowID >= 0 {
+				cv, has = m.Cells[c.Name][uint32(rowID)]
+			}
 			if merge {
-				cur := 0
-				if l, ok := ts.curLen[ck]; ok {
-					cur = l
-				} else if !isNew && rowID >= 0 {
-					if v, ok := m.Cells[c.Name][uint32(rowID)]; ok {
-						cur = len(v.S)
-					}
-				}
 				w.Merge = true
-				w.V = g.mergeDelta(c, cur)
-				if c.Kind == KStringCat || c.Kind == KRecordMerge {
-					ts.varMerged[ck] = true
-					ts.curLen[ck] = cur + len(w.V.S)
+				w.V = g.mergeDelta(c, len(cv.S))
+				res := mergeVal(c.Kind, cv, has, w.V)
+				lenChanging := c.Kind.Stringy() && len(res.S) != len(w.V.S)
+				if ts.varMerged[ck] && !lenChanging {
+					continue // boundary (KF-VARLEN-MERGE-REORDER): after a length-changing merge only further length-changing merges may touch the cell
 				}
+				if lenChanging {
+					ts.varMerged[ck] = true
+				}
+				ts.cur[ck], ts.curHas[ck] = res, true
 			} else {
 				if ts.varMerged[ck] {
 					continue // boundary: no store after a length-changing merge on the same cell (KF-VARLEN-MERGE-REORDER)
@@ -323,11 +333,14 @@ func (g *Gen) genWrites(m *Model, o txnGenOpts, ts *txnState, rowID int64, isNew
 				}
 				if c.Kind != KKey && g.rng.Intn(6) == 0 {
 					w.Via = 2 + g.rng.Intn(2)
+					if (c.Kind == KInt || c.Kind == KUint) && g.rng.Intn(2) == 0 {
+						w.Via += 2 // narrower Go integer type through the any-typed path
+					}
 				}
 				if c.Kind == KBool && w.False {
 					w.Via = g.rng.Intn(2)
 				}
-				ts.curLen[ck] = len(w.V.S)
+				ts.cur[ck], ts.curHas[ck] = w.V, !(c.Kind == KBool && w.False)
 			}
 			ws = append(ws, w)
 		}
@@ -337,7 +350,8 @@ func (g *Gen) genWrites(m *Model, o txnGenOpts, ts *txnState, rowID int64, isNew
 
 // genTxn builds one transaction against the current model state.
 func (g *Gen) genTxn(m *Model, live []uint32, o txnGenOpts) TxnSpec {
-	ts := &txnState{written: map[int64]bool{}, deleted: map[int64]bool{}, varMerged: map[cellKey]bool{}, keysMade: map[string]bool{}, keysGone: map[string]bool{}, curLen: map[cellKey]int{}}
+	ts := &txnState{written: map[int64]bool{}, deleted: map[int64]bool{}, varMerged: map[cellKey]bool{}, keysMade: map[string]bool{}, keysGone: map[string]bool{}, curLen: map[cellKey]int{},
+		cur: map[cellKey]Val{}, curHas: map[cellKey]bool{}}
 	nops := 1 + g.rng.Intn(o.MaxOps)
 	var spec TxnSpec
 	keyed := m.KeyCol != ""
@@ -530,6 +544,14 @@ func (g *Gen) genTxn(m *Model, live []uint32, o txnGenOpts) TxnSpec {
 	}
 	if g.rng.Intn(100) < o.PAbort {
 		spec.Abort = true
+		if g.rng.Intn(100) < o.SwallowPct {
+			for i := range spec.Ops {
+				if op := &spec.Ops[i]; (op.T == "ins" || op.T == "inskey") && !op.Fail {
+					op.Fail, op.Swallow = true, true // the callback fails, the body carries on and returns an error at the end
+					break
+				}
+			}
+		}
 	}
 	return spec
 }
